@@ -92,6 +92,10 @@ pub fn run(lines: &[Vec<String>]) {
                 let e: event::Scenario<W> = match l[5].as_str() {
                     "started" => event::Scenario::Started,
                     "finished" => event::Scenario::Finished,
+                    "step" => {
+                        let sc = &ssrc[&(l[2].clone(), l[4].clone())];
+                        event::Scenario::Step(Source::new(sc.steps[0].clone()), event::Step::Started)
+                    }
                     x => panic!("scenario event {x}"),
                 };
                 let rule = (l[3] == "r").then(|| rsrc[&l[2]].clone());
